@@ -9,6 +9,13 @@ from .facts import AnchorMissing
 VERIF = os.path.dirname(os.path.dirname(os.path.abspath(__file__)))
 
 RULES = {}  # property -> list of (rule id, title, fn, tiers)
+# positive controls: (property, rule id) -> key fragments the rule MUST report on the fixture crate (/verif/fixtures)
+CONTROLS = {
+    ('C20', 'R1'): ['FlushOnDrop|drop-sends', 'Guard|drop-sends'],
+    ('C20', 'R2'): ['swallow_send|swallowed', 'neutralise_send|swallowed'],
+    ('C02', 'R2'): ['swallow_send|swallowed', 'neutralise_send|swallowed'],
+    ('C20', 'R3'): ['ignore_join|join-unchecked'],
+}
 
 
 def rule(prop, rid, title, tier='quick'):
@@ -138,6 +145,30 @@ def run_property(prop, facts, tier, seed, meta, fixtures=None, only_rule=None):
         elif fl is None and n == 0:
             rep.inconclusive.append('%s.%s: matched zero instances (vacuous)' % (prop, rid))
 
+    # positive controls for zero-expected rules: the same rule code must fire on the fixture crate
+    controls_run = {}
+    for rid, title, fn, rtier in rl:
+        exp = CONTROLS.get((prop, rid))
+        if not exp or (only_rule and rid != only_rule):
+            continue
+        try:
+            from . import gen
+            from .facts import load_dir
+            fx = load_dir(gen.generate_fixtures())
+            crep = Report(prop, tier, seed)
+            cctx = Ctx(prop, rid, fx, crep, tier)
+            try:
+                fn(cctx)
+            except Exception:
+                pass
+            keys = [v['key'] for v in crep.violations]
+            missing = [e for e in exp if not any(e in k for k in keys)]
+            controls_run['%s.%s' % (prop, rid)] = {'expected': exp, 'reported': keys}
+            if missing:
+                rep.inconclusive.append('%s.%s: positive control not reported on the fixture crate: %s (the rule is blind)' % (prop, rid, missing))
+        except SystemExit:
+            rep.inconclusive.append('%s.%s: positive-control fixture unavailable' % (prop, rid))
+
     known = load_known()
     known_keys = {k['key']: k for k in known.get('findings', [])}
     new_viol = []
@@ -189,6 +220,7 @@ def run_property(prop, facts, tier, seed, meta, fixtures=None, only_rule=None):
         'exceptions': rep.exceptions,
         'notes': rep.notes,
         'known_findings_present': [v['key'] for v in known_hit],
+        'positive_controls': controls_run,
         'inconclusive': rep.inconclusive,
         'config': meta,
         'exhaustive': False,
